@@ -45,7 +45,19 @@ static std::string decode_digest(const std::vector<uint8_t> &b, std::string *err
   auto p = d.DecodePointCloudFromBuffer(&db); if (!p.ok()) { if (err) *err = p.status().error_msg(); if (code) *code = p.status().code(); return ""; } return digest(*p.value(), nullptr);
 }
 
+// closed surface of genus 1 (w x h grid wrapped both ways): Edgebreaker needs topology split events for it
+static std::unique_ptr<Mesh> gen_torus(Rng &r) {
+  int w = (int)r.range(3, 7), h = (int)r.range(3, 7); TriangleSoupMeshBuilder mb; mb.Start(2 * w * h);
+  int pos = mb.AddAttribute(GeometryAttribute::POSITION, 3, DT_FLOAT32); int gen = r.chance(50) ? mb.AddAttribute(GeometryAttribute::GENERIC, 1, DT_UINT8) : -1;
+  auto P = [&](int x, int y, float *o) { float a = 6.2831853f * (float)(x % w) / (float)w, b = 6.2831853f * (float)(y % h) / (float)h; o[0] = (3.f + std::cos(b)) * std::cos(a); o[1] = (3.f + std::cos(b)) * std::sin(a); o[2] = std::sin(b); };
+  int f = 0;
+  for (int y = 0; y < h; y++) for (int x = 0; x < w; x++) { float a[3], b[3], c[3], d[3]; P(x, y, a); P(x + 1, y, b); P(x + 1, y + 1, c); P(x, y + 1, d);
+    mb.SetAttributeValuesForFace(pos, FaceIndex(f), a, b, c); if (gen >= 0) { uint8_t v = (uint8_t)(f % 3); mb.SetPerFaceAttributeValueForFace(gen, FaceIndex(f), &v); } f++;
+    mb.SetAttributeValuesForFace(pos, FaceIndex(f), a, c, d); if (gen >= 0) { uint8_t v = (uint8_t)(f % 3); mb.SetPerFaceAttributeValueForFace(gen, FaceIndex(f), &v); } f++; }
+  return mb.Finalize();
+}
 static std::unique_ptr<Mesh> gen_mesh(Rng &r) {
+  if (r.chance(12)) return gen_torus(r);
   TriangleSoupMeshBuilder mb; int w = (int)r.range(2, 6), h = (int)r.range(2, 6);
   std::vector<std::array<int, 3>> faces; auto id = [&](int x, int y) { return y * (w + 1) + x; };
   for (int y = 0; y < h; y++) for (int x = 0; x < w; x++) { if (r.chance(10)) continue; faces.push_back({id(x, y), id(x + 1, y), id(x + 1, y + 1)}); faces.push_back({id(x, y), id(x + 1, y + 1), id(x, y + 1)}); }
@@ -68,6 +80,11 @@ static std::unique_ptr<Mesh> gen_mesh(Rng &r) {
   return mb.Finalize();
 }
 static std::unique_ptr<PointCloud> gen_pc(Rng &r) {
+  if (r.chance(12)) {   // many points on very few distinct positions: the kd-tree stream takes far less than one bit per point
+    PointCloudBuilder pb; int n = (int)r.range(600, 4000), k = (int)r.range(1, 3); pb.Start(n); int pos = pb.AddAttribute(GeometryAttribute::POSITION, 3, DT_FLOAT32);
+    for (int i = 0; i < n; i++) { int j = (int)r.below(k); float p[3] = {(float)j, (float)(j * j), 1.f}; pb.SetAttributeValueForPoint(pos, PointIndex(i), p); }
+    return pb.Finalize(false);
+  }
   PointCloudBuilder pb; int n = (int)r.range(1, 90); pb.Start(n);
   int pos = pb.AddAttribute(GeometryAttribute::POSITION, 3, DT_FLOAT32); int col = r.chance(60) ? pb.AddAttribute(GeometryAttribute::COLOR, 4, DT_UINT8) : -1; int gen = r.chance(40) ? pb.AddAttribute(GeometryAttribute::GENERIC, 1, DT_UINT32) : -1;
   for (int i = 0; i < n; i++) { float p[3] = {(float)r.range(-900, 900) / 16.f, (float)r.range(-900, 900) / 16.f, (float)r.range(-90, 90) / 4.f}; pb.SetAttributeValueForPoint(pos, PointIndex(i), p);
@@ -102,6 +119,10 @@ static uint64_t battery(bool thorough, uint64_t seed, Out *o, long *count) {
       std::string tag = std::string(mesh ? "mesh" : "pc") + " method=" + S(op.method) + " speed=" + S(op.speed) + " sub=" + S(op.sub) + " q=" + S(op.qpos) + " builtin=" + S(op.builtin) + " geo#" + S(i);
       (*count)++;
       // same Encoder object again (history: everything encoded before), reused buffer after Clear()
+      // history of the reused buffer: besides earlier encodes, direct use of its public interface (byte data, bit sequences with and
+      // without a size prefix), then Clear()
+      if (r.chance(40)) { int steps = (int)r.range(1, 4); for (int q = 0; q < steps; q++) { if (r.chance(30)) { uint32_t v = (uint32_t)r.next(); reused_buf.Encode(v); }
+          else { bool with_size = r.chance(60); if (reused_buf.StartBitEncoding(64, with_size)) { int nb = (int)r.range(0, 5); for (int t = 0; t < nb; t++) reused_buf.EncodeLeastSignificantBits32((int)r.range(1, 32), (uint32_t)r.next()); reused_buf.EndBitEncoding(); } } } }
       reused_enc.Reset(); configure(reused_enc, op); reused_buf.Clear();
       bool ok2 = encode(reused_enc, *g, mesh, reused_buf);
       if (o && (!ok2 || reused_buf.size() != eb1.size() || memcmp(reused_buf.data(), eb1.data(), eb1.size()))) o->fail("C06 reused Encoder/EncoderBuffer produced different bytes: " + tag);
